@@ -7,7 +7,12 @@
    statements (a blocking acquire / wait / portal call starts a new segment), which is the granularity at which the
    GIL lets threads interleave.  Connected clients are not represented (server_close is taken to end the run).
 
-     serve_forever : V0 wants close lock | V1 has it, wants bootstrap lock | V2 start-up window: both locks held,
+   The ORDER in which serve_forever and server_close take the two locks, and whether serve_forever tests __is_closed
+   under the close lock, are data regenerated from the source (Gen/ParamsC18.v: serve_first_lock, close_first_lock,
+   serve_closed_check_under_lock); the theorems of Proofs/C18_threads.v are re-checked against them.
+     serve_forever : Vc lock-free part before the first lock | V0 wants its first lock (as found: close lock, then the
+                     __is_closed test) | V1 has it, wants the other lock (as found: bootstrap lock, then the "already
+                     running" test) | V2 start-up window: both locks held,
                      event cleared, server and portal being created | V4 serving (locks released) | V5 run over, portal
                      dead, wants the bootstrap lock to reset the fields and set the event
      shutdown      : H0 wants bootstrap lock | H1 holds it, portal.run_coroutine(server.shutdown) in flight |
@@ -19,7 +24,7 @@ From Coq Require Import List Bool Arith Lia.
 From EN Require Import Gen.ParamsC18.
 Import ListNotations.
 
-Inductive tpc := V0 | V1 | V2 | V4 | V5 | H0 | H1 | H2 (g : nat) | C0 | C1 | C2 | Q0.
+Inductive tpc := Vc | V0 | V1 | V2 | V4 | V5 | H0 | H1 | H2 (g : nat) | C0 | C1 | C2 | Q0.
 Inductive tkind := KServe | KShutdown | KClose | KQuery.
 Inductive tout := TOk | TAlreadyRunning | TClosed.
 
@@ -56,21 +61,49 @@ Definition free (o : option nat) : bool := match o with None => true | Some _ =>
 Definition with_thr (s : tst) (t : list (nat * tpc)) : tst :=
   mkt (t_closed s) (t_shut s) (close_l s) (boot_l s) (portal s) (alive s) (arun s) (astop s) (inflight s) (tgen s) (tfin s) t (next_t s).
 
+Definition lock_of (s : tst) (l : lockid) : option nat := match l with LClose => close_l s | LBoot => boot_l s end.
+Definition other_lock (l : lockid) : lockid := match l with LClose => LBoot | LBoot => LClose end.
+Definition take_lock (s : tst) (l : lockid) (id : nat) : tst :=
+  match l with
+  | LClose => mkt (t_closed s) (t_shut s) (Some id) (boot_l s) (portal s) (alive s) (arun s) (astop s) (inflight s) (tgen s) (tfin s) (thr s) (next_t s)
+  | LBoot => mkt (t_closed s) (t_shut s) (close_l s) (Some id) (portal s) (alive s) (arun s) (astop s) (inflight s) (tgen s) (tfin s) (thr s) (next_t s)
+  end.
+Definition release_both (s : tst) : tst :=
+  mkt (t_closed s) (t_shut s) None None (portal s) (alive s) (arun s) (astop s) (inflight s) (tgen s) (tfin s) (thr s) (next_t s).
+(* the test serve_forever performs right after taking lock l: None = passes *)
+Definition serve_check (s : tst) (l : lockid) : option tout :=
+  match l with
+  | LClose => if serve_closed_check_under_lock && t_closed s then Some TClosed else None
+  | LBoot => if t_shut s then None else Some TAlreadyRunning
+  end.
+
 (* one segment of thread [id] currently at [pc]; [rest] = the other threads *)
 Definition seg (s : tst) (id : nat) (pc : tpc) (rest : list (nat * tpc)) : option (tst * list (nat * tout)) :=
   let go (s' : tst) (pc' : tpc) := Some (with_thr s' (rest ++ [(id, pc')]), []) in
   let fin (s' : tst) (o : tout) := Some (with_thr s' rest, [(id, o)]) in
   match pc with
+  | Vc =>
+      (* statements of serve_forever before its first lock: a lock-free __is_closed test if the source has one there *)
+      if negb serve_closed_check_under_lock && t_closed s then fin s TClosed else go s V0
   | V0 =>
-      if free (close_l s) then
-        if t_closed s then fin s TClosed
-        else go (mkt (t_closed s) (t_shut s) (Some id) (boot_l s) (portal s) (alive s) (arun s) (astop s) (inflight s) (tgen s) (tfin s) (thr s) (next_t s)) V1
+      let l := serve_first_lock in
+      if free (lock_of s l) then
+        let s1 := take_lock s l id in
+        match serve_check s1 l with
+        | Some o => fin s o                      (* the lock just taken is released again *)
+        | None => go s1 V1
+        end
       else None
   | V1 =>
-      if free (boot_l s) then
-        if t_shut s
-        then go (mkt (t_closed s) false (close_l s) (Some id) (portal s) (alive s) (arun s) (astop s) (inflight s) (S (tgen s)) (tfin s) (thr s) (next_t s)) V2
-        else fin (mkt (t_closed s) (t_shut s) None (boot_l s) (portal s) (alive s) (arun s) (astop s) (inflight s) (tgen s) (tfin s) (thr s) (next_t s)) TAlreadyRunning
+      let l := other_lock serve_first_lock in
+      if free (lock_of s l) then
+        let s1 := take_lock s l id in
+        match serve_check s1 l with
+        | Some o => fin (release_both s1) o      (* this thread holds both locks: released *)
+        | None => (* both tests passed: a new run starts (event of the run created, unset) *)
+            go (mkt (t_closed s1) false (close_l s1) (boot_l s1) (portal s1) (alive s1) (arun s1) (astop s1) (inflight s1)
+                    (S (tgen s1)) (tfin s1) (thr s1) (next_t s1)) V2
+        end
       else None
   | V2 => (* server and portal exist: release the locks, the asynchronous serve_forever starts *)
       go (mkt (t_closed s) (t_shut s) None None true true true false (inflight s) (tgen s) (tfin s) (thr s) (next_t s)) V4
@@ -99,14 +132,15 @@ Definition seg (s : tst) (id : nat) (pc : tpc) (rest : list (nat * tpc)) : optio
          guarded: the event object of run g captured under the lock (set iff that run has finished) *)
       if (if standalone_shutdown_guarded then Nat.leb g (tfin s) else t_shut s) then fin s TOk else None
   | C0 =>
-      if free (close_l s)
-      then go (mkt (t_closed s) (t_shut s) (Some id) (boot_l s) (portal s) (alive s) (arun s) (astop s) (inflight s) (tgen s) (tfin s) (thr s) (next_t s)) C1
-      else None
+      let l := close_first_lock in
+      if free (lock_of s l) then go (take_lock s l id) C1 else None
   | C1 =>
-      if free (boot_l s) then
-        if portal s && alive s
-        then go (mkt (t_closed s) (t_shut s) (close_l s) (Some id) (portal s) (alive s) (arun s) true (S (inflight s)) (tgen s) (tfin s) (thr s) (next_t s)) C2
-        else fin (mkt true (t_shut s) None (boot_l s) (portal s) (alive s) (arun s) (astop s) (inflight s) (tgen s) (tfin s) (thr s) (next_t s)) TOk
+      let l := other_lock close_first_lock in
+      if free (lock_of s l) then
+        let s1 := take_lock s l id in
+        if portal s1 && alive s1
+        then go (mkt (t_closed s1) (t_shut s1) (close_l s1) (boot_l s1) (portal s1) (alive s1) (arun s1) true (S (inflight s1)) (tgen s1) (tfin s1) (thr s1) (next_t s1)) C2
+        else fin (release_both (mkt true (t_shut s1) (close_l s1) (boot_l s1) (portal s1) (alive s1) (arun s1) (astop s1) (inflight s1) (tgen s1) (tfin s1) (thr s1) (next_t s1))) TOk
       else None
   | C2 => (* server.server_close() always completes (Lifecycle.no_deadlock) *)
       fin (mkt true (t_shut s) None None (portal s) (alive s) (arun s) (astop s) (pred (inflight s)) (tgen s) (tfin s) (thr s) (next_t s)) TOk
@@ -114,7 +148,7 @@ Definition seg (s : tst) (id : nat) (pc : tpc) (rest : list (nat * tpc)) : optio
   end.
 
 Definition first_pc (k : tkind) : tpc :=
-  match k with KServe => V0 | KShutdown => H0 | KClose => C0 | KQuery => Q0 end.
+  match k with KServe => Vc | KShutdown => H0 | KClose => C0 | KQuery => Q0 end.
 
 Definition tstep (s : tst) (l : tlabel) : option (tst * list (nat * tout)) :=
   match l with
